@@ -46,6 +46,7 @@ class EngineProbe:
         self.overflow = False
         self.on_invoke = None     # optional callback(event, eid) for spin guards
         self._cur = None          # event whose top-level invoke is in progress
+        self.targets = {}         # event id -> target name
 
     def eid(self, ev) -> int:
         k = id(ev)
@@ -154,6 +155,7 @@ class EngineProbe:
         e = len(self._keep) + 1
         self._ids[k] = e
         self._keep.append(ev)
+        self.targets[e] = getattr(getattr(ev, "target", None), "name", None)
         rec = ["c", e, _ns(ev.time), bool(ev.daemon)]
         if isinstance(ev, ProcessContinuation) and self._cur is not None and self._depth > 0:
             # a continuation belongs to the process started by / continued from the current event:
